@@ -6,8 +6,9 @@ CONSTANTS
   Feat = {"usage", "stop"}
   Feeds <- FeedsTwo
   MaxCum = 2
-  Steps = {1, 2}
+  Steps = {1}
   Outcomes = {"ok", "fail", "pendok", "hold"}
+  ZeroReports = "keys"
   RetryFailed = TRUE
   Faithful = TRUE
 INVARIANTS TypeOK AppliedIsInForce FailedIsRefused EffectiveInForce Conservation NoDoubleCount StopUnhealthy
